@@ -840,6 +840,16 @@ func (runInfo *runInfoStruct) runDeferStmt(stmt *ast.DeferStmt) {
 		return
 	}
 
+	// the arguments are those of the defer statement: a value read from a typed
+	// slice element or a struct field must not follow later writes to it
+	for i := range args {
+		if inner, ok := args[i].Interface().(reflect.Value); ok && isRunVMFunction {
+			args[i] = reflect.ValueOf(detach(inner))
+		} else {
+			args[i] = detach(args[i])
+		}
+	}
+
 	runInfo.defers = append(runInfo.defers, capturedFunc{
 		fn:        f,
 		args:      args,
